@@ -268,3 +268,34 @@ def run(ctx):
 
     from engine.fdvalid import state_pair
     state_pair(ctx, prog)       # a rejecting return must not leave the descriptors swapped (NO-EFFECT for the failed open)
+
+    ctx.rule('OPEN-ARGS', 'a NULL SF_INFO pointer is a documented error (SFE_BAD_SF_INFO_PTR): in sf_open, sf_open_fd, sf_open_virtual and psf_open_file every dereference of the SF_INFO '
+             'parameter happens with the pointer proved non-NULL (A-PENT: a rejecting NULL test dominates it)', floor=4)
+    from engine.bounds import Bounds as _B9
+    from engine.effects import Effects as _E9
+    e9 = _E9(prog)
+    nd = 0
+    for name in ('sf_open', 'sf_open_fd', 'sf_open_virtual', 'psf_open_file'):
+        g = prog.fn(name, 'sndfile.c')
+        ip = [q['n'] for q in g.params if 'SF_INFO' in q['t']]
+        ctx.require(ip, '%s has no SF_INFO parameter' % name)
+        P = ip[0]
+        bd9 = _B9(prog, g, e9)
+        derefs = [n for n in g.walk() if (n['k'] == 'MemberExpr' and n.get('arrow') and g.unwrap(g.N[n['kids'][0]]).get('n') == P) or
+                  (n['k'] == 'UnaryOperator' and n.get('op') == '*' and g.unwrap(g.N[n['kids'][0]]).get('n') == P)]
+        if not derefs:
+            nd += 1
+            ctx.ob('OPEN-ARGS', name + ':none', True, g.loc(g.body), '%s never dereferences %s itself (it is handed to psf_open_file)' % (name, P), None)
+        seen_l = set()
+        for n in derefs:
+            if n['l'] in seen_l:
+                continue
+            seen_l.add(n['l'])
+            pn = g.unwrap(g.N[n['kids'][0]])
+            b = bd9.ev_at(pn, g.cfg.point(n))
+            ok = b.lo is not None and b.lo >= 1
+            nd += 1
+            ctx.ob('OPEN-ARGS', '%s:%s@%d' % (name, g.s(n)[:30], len(seen_l)), ok, g.loc(n), '%s dereferenced with the pointer %s' % (P, 'proved non-NULL' if ok else
+                   'NOT checked against NULL: sf_open* (…, NULL, …) crashes instead of failing with SFE_BAD_SF_INFO_PTR'), repr(b))
+    ctx.require(nd >= 4, 'only %d SF_INFO dereferences found in the open functions' % nd)
+
